@@ -85,6 +85,9 @@ func TestVerif_C12(t *testing.T) {
 		{"shared-vs-excl", []verifC12Proc{{name: "P1", exclusive: false, role: "locker"}, {name: "P2", exclusive: true, role: "locker"}}, 0},
 		{"shared-vs-shared", []verifC12Proc{{name: "P1", exclusive: false, role: "locker"}, {name: "P2", exclusive: false, role: "locker"}}, 0},
 		// eventually consistent listing: a new lock file shows up in listings 100 ms (< the 200 ms re-check wait) after its upload
+		// the second process starts whenever the scheduler lets it - in particular in the middle of a refresh
+		// of the first one's lock (every 5 minutes), when the holder replaces its lock file
+		{"shared-refreshing-vs-late-excl", []verifC12Proc{{name: "P1", exclusive: false, role: "timed-locker"}, {name: "P2", exclusive: true, role: "late-locker"}}, 0},
 		{"excl-vs-shared/list-delay-100ms", []verifC12Proc{{name: "P1", exclusive: true, role: "locker"}, {name: "P2", exclusive: false, role: "locker"}}, 100 * time.Millisecond},
 	}
 	if r.Thorough() {
@@ -135,6 +138,9 @@ func TestVerif_C12(t *testing.T) {
 							_, _ = repository.RemoveStaleLocks(x.Ctx, repo)
 							return
 						}
+						if pp.role == "late-locker" {
+							x.Gate(xplore.Event{Key: pp.name + ":start", Proc: pp.name, Kind: "start", Yield: true})
+						}
 						unlock, lctx, err := repository.LockRepo(x.Ctx, repo, pp.exclusive, 6*time.Second, func(string) {}, func(string, ...any) {}) // 6s: retry once after 5s, last attempt at 6s (0 would make Go's select choose randomly between two ready timers)
 						pp.lockErr, pp.returned = err, true
 						if err != nil {
@@ -142,6 +148,16 @@ func TestVerif_C12(t *testing.T) {
 						}
 						pp.lockCtx = lctx
 						pp.holding, pp.heldOnce = true, true
+						if pp.role == "timed-locker" {
+							// works for 12 minutes (two lock refreshes), then unlocks
+							select {
+							case <-time.After(12 * time.Minute):
+							case <-lctx.Done():
+							}
+							pp.holding = false
+							unlock()
+							return
+						}
 						// hold the lock until the scheduler says otherwise
 						a := x.Gate(xplore.Event{Key: pp.name + ":holding", Proc: pp.name, Kind: "work", Yield: true, Alts: verifC12HoldAlts(pp.role)})
 						if pp.role == "crasher" && a == 1 {
